@@ -285,17 +285,17 @@ def gen_cases(rec, rng, tier):
         yield {'kind': 'unary', 'cls': 'enum_dfa', 'ref': R}
     for (cls, R) in fag.hostile_dfas(rng):
         yield {'kind': 'unary', 'cls': 'hostile_' + cls, 'ref': R}
-        yield {'kind': 'pair', 'cls': 'hostile_pair_' + cls, 'ref1': R, 'ref2': fag.random_dfa(rng, rng.randint(1, 4), len(R[1]), names=fag.random_names(rng, 4)[:rng.randint(1, 4)]) if len(R[1]) else R}
+        yield {'kind': 'pair', 'cls': 'hostile_pair_' + cls, 'ref1': R, 'ref2': fag.random_dfa(rng, rng.randint(1, 4), len(R[1]), names=fag.random_names(rng, 4, exotic=True)[:rng.randint(1, 4)]) if len(R[1]) else R}
     for _ in range(400 if thorough else 100):
         k = rng.randint(1, 3)
         n1, n2 = rng.randint(1, 5), rng.randint(1, 5)
-        R1 = fag.random_dfa(rng, n1, k, names=rng.choice([None, fag.random_names(rng, n1)]))
-        R2 = fag.random_dfa(rng, n2, k, names=rng.choice([None, fag.random_names(rng, n2)]))
+        R1 = fag.random_dfa(rng, n1, k, names=rng.choice([None, fag.random_names(rng, n1, exotic=True)]))
+        R2 = fag.random_dfa(rng, n2, k, names=rng.choice([None, fag.random_names(rng, n2, exotic=True)]))
         yield {'kind': 'pair', 'cls': 'random_pair', 'ref1': R1, 'ref2': R2}
     for _ in range(400 if thorough else 100):
         k = rng.randint(1, 3)
         n = rng.randint(1, 7)
-        R = fag.random_dfa(rng, n, k, names=rng.choice([None, fag.random_names(rng, n)]), p_final=rng.choice([0.15, 0.4, 0.8]))
+        R = fag.random_dfa(rng, n, k, names=rng.choice([None, fag.random_names(rng, n, exotic=True)]), p_final=rng.choice([0.15, 0.4, 0.8]))
         yield {'kind': 'unary', 'cls': 'random_dfa', 'ref': R}
         yield {'kind': 'partial', 'cls': 'partial_dfa', 'ref': make_partial(rng, R, rng.choice([0.1, 0.3, 0.7, 1.0]))}
     # the prefix-free / non-extendable restrictions depend on cycles among non-accepting states and on the
@@ -305,6 +305,12 @@ def gen_cases(rec, rng, tier):
         n = rng.randint(3, 8)
         R = fag.maybe_digits(rng, fag.random_dfa(rng, n, k, names=rng.choice([None, fag.random_names(rng, n, exotic=True)]), p_final=rng.choice([0.3, 0.5, 0.7])))
         yield {'kind': 'restrict', 'cls': 'random_dfa_restrictions', 'ref': R}
+    # numbered names with the hints of the constructions' fresh-name helpers (q, trap, P): runs spanning digit lengths, gaps
+    for _ in range(150 if thorough else 40):
+        n = rng.randint(2, 8)
+        R = fag.random_dfa(rng, n, rng.randint(1, 2), names=fag.hint_names(rng, n, rng.choice(['q', 'q', 'trap', 'P'])), p_final=rng.choice([0.3, 0.6]))
+        yield {'kind': 'unary', 'cls': 'numbered_helper_names', 'ref': R}
+        yield {'kind': 'partial', 'cls': 'numbered_helper_names_partial', 'ref': make_partial(rng, R, rng.choice([0.2, 0.5]))}
     # names that collide with the helper names the constructions introduce
     for names in (['trap1', 'trap2', 'q1'], ['q1', 'q2', 'q3'], ['P1', 'trap', 'q']):
         R = fag.random_dfa(rng, 3, 2, names=names)
